@@ -286,8 +286,8 @@ package analysis
 //@ pred tableOK(an *Analysis) bool = an != nil && an.Types != nil && (forall t types.Type :: has(an.Types, t) ==> an.Types[t] != nil && allocated(an.Types[t]) && (is(an.Types[t], *Union) && is(t, *types.Named) ==> as(an.Types[t], *Union).name == t))
 // the enums handed to the analysis are real nodes
 //@ pred ctxOK(ctx context) bool = forall N *types.Named :: has(ctx.enums, N) ==> ctx.enums[N] != nil
-// (the table is NOT monotone: for an alias the node is stored under the unaliased type and may replace an
-// earlier node of that type; only "no nil node" is carried through the recursion)
+// (before fix 2bd2bdf the table was not monotone: for an alias the node was stored under the unaliased type and
+// replaced an earlier node of that type; only "no nil node" is carried through the recursion)
 
 //@ pred nodeIsDate(n Type) bool = ite(is(n, *Named), as(as(n, *Named).Underlying, *Time).IsDate, as(n, *Time).IsDate)
 
@@ -310,6 +310,8 @@ package analysis
 //@   modifies keys(an.Types)
 //@   ensures result != nil && tableOK(an)
 //@   ensures !ctx.isInExtern ==> has(an.Types, typ) && an.Types[typ] == result
+//@   -- C11 / C12: an alias shares the node of the type it denotes (no second node replaces one already handed out)
+//@   ensures !ctx.isInExtern && is(typ, *types.Alias) && !old(has(an.Types, typ)) ==> has(an.Types, types.Unalias(typ)) && an.Types[types.Unalias(typ)] == result
 
 //@ func (*Analysis).handleStructFields
 //@   props C09 C11 C12
